@@ -91,6 +91,43 @@ where
         e
     }
 
+    /// Formats the expression that follows a declaration (`let`, `type`, `do`, `seq`).
+    ///
+    /// The line break between a declaration and what follows it is copied from the source (by
+    /// `comments`). When the source has none, as in `let x = 1 in x`, one must be inserted or
+    /// the two would be printed without anything separating them.
+    fn pretty_body(
+        &self,
+        previous_end: BytePos,
+        body: &'a SpannedExpr<I>,
+    ) -> DocBuilder<'a, Arena<'a, A>, A>
+    where
+        A: Clone,
+    {
+        let doc = self.pretty_expr_(previous_end, body);
+        let start = body.span.start();
+        // Expanded (macro generated) code has no source text to look at and gets its line breaks
+        // from the callers
+        if self.formatter.expanded
+            || previous_end == 0.into()
+            || start == 0.into()
+            || previous_end > start
+        {
+            return doc;
+        }
+        // `comments` breaks the line for every newline and every `//` comment it finds before
+        // the first token of the gap (which is `in` when that is written out)
+        let separated = self
+            .source
+            .comments_between(Span::new(previous_end, start))
+            .any(|comment| comment.is_empty() || comment.starts_with("//"));
+        if separated {
+            doc
+        } else {
+            self.arena.hardline().append(doc)
+        }
+    }
+
     fn pretty_expr_with_shebang_line(
         &self,
         expr: &'a SpannedExpr<I>,
@@ -294,7 +331,7 @@ where
                     } else {
                         arena.nil()
                     },
-                    self.pretty_expr_(binds.last().unwrap().span().end(), body)
+                    self.pretty_body(binds.last().unwrap().span().end(), body)
                         .group()
                 ]
             }
@@ -458,7 +495,7 @@ where
                     } else {
                         arena.nil()
                     },
-                    self.pretty_expr_(binds.last().unwrap().alias.span.end(), body)
+                    self.pretty_body(binds.last().unwrap().alias.span.end(), body)
                 ]
                 .group()
             }
@@ -474,7 +511,7 @@ where
                     chain![
                         arena,
                         self.hang(from, (self.space_before(bound.span.start()), true), bound),
-                        self.pretty_expr_(bound.span.end(), body)
+                        self.pretty_body(bound.span.end(), body)
                     ]
                 } else {
                     match id {
@@ -494,7 +531,7 @@ where
                                     (self.space_before(bound.span.start()), true),
                                     bound
                                 ),
-                                self.pretty_expr_(bound.span.end(), body)
+                                self.pretty_body(bound.span.end(), body)
                             ]
                         }
 
